@@ -132,6 +132,7 @@ type fnCtx struct {
 	specFnDeclared map[string]bool
 	calleeCount map[string]int
 	assumedUsed map[string]bool
+	inPanicExit bool
 }
 
 type dbgRef struct {
